@@ -358,7 +358,8 @@ def stage(rep, prop, tier, seed, gen_args=(), nsc=None, nops=None, label="schedu
         nsc, nops = (100, 60) if not thorough else (1200, 80)
     scenarios = []
     for p in sorted(glob.glob(os.path.join(pk.VERIF, "corpus", "mgr", "*.sc")) +
-                    glob.glob(os.path.join(pk.VERIF, "corpus", prop, "*.sc"))):
+                    glob.glob(os.path.join(pk.VERIF, "corpus", prop, "*.sc")) +
+                    glob.glob(os.path.join(pk.VERIF, "corpus", prop + "-" + label, "*.sc"))):
         scenarios.append(Scenario("corpus:" + os.path.basename(p),
                                   [l for l in open(p).read().split("\n") if l and not l.startswith("#")]))
     for i in range(nsc):
